@@ -236,8 +236,13 @@ class ProxyProtocolV2(object):
             'Invalid proxy protocol v2 signature'
         assert data[12] & 0xf0 == 0x20, 'Invalid proxy protocol version'
         command = cls.__commands.get(data[12] & 0x0f)
+        assert command is not None, 'Invalid proxy protocol command'
         family = cls.__families.get(data[13] & 0xf0)
+        assert family is not None or data[13] & 0xf0 == 0x00, \
+            'Invalid proxy protocol address family'
         protocol = cls.__protocols.get(data[13] & 0x0f)
+        assert protocol is not None or data[13] & 0x0f == 0x00, \
+            'Invalid proxy protocol transport protocol'
         addr_len = struct.unpack('!H', data[14:16])[0]
         return command, family, protocol, addr_len
 
